@@ -574,6 +574,14 @@ def apply_contract(eng, fi, c, self_val, args, kw, st, e):
     k = eng.call_counts.get(fi.name, 0)
     eng.call_counts[fi.name] = k + 1
     tag = "call[%s]#%d" % (fi.name, k)
+    # the callee's typing of paths rooted at its parameters applies to the corresponding caller paths
+    for tp, tspec in c.types.items():
+        try:
+            kind, key = resolve_path(eng, tp, b, st)
+        except Exception:
+            continue
+        if kind == "heap" and key not in ctx().types:
+            ctx().types[key] = eng.localise_spec(tspec, b, st)
     pre = spec_state(eng, st, b)
     lets = dict(c.lets)
     saved_cc, saved_spec = eng.cur_contract, eng.spec
@@ -582,9 +590,15 @@ def apply_contract(eng, fi, c, self_val, args, kw, st, e):
         eng.spec = None
         # typing info of the callee's paths is not re-declared at the caller
         for cl in c.requires:
-            g = eng.eval_clause(cl, pre, pre=pre, polarity=1, lets=lets)
+            forced = None
+            try:
+                g = eng.eval_clause(cl, pre, pre=pre, polarity=1, lets=lets)
+            except Undecided as ex:
+                g, forced = z3.BoolVal(True), str(ex)
             eng.cur_contract = saved_cc
-            eng.oblige("%s::pre::%s" % (tag, cl.name), st, g, "pre", False, c.serves, e, cl)
+            eng.oblige("%s::pre::%s" % (tag, cl.name), st, g, "pre", False, cl.props, e, cl)
+            if forced:
+                eng.obligations[-1].forced = ("unknown", "precondition not expressible at this call site: " + forced[:300])
             eng.cur_contract = c
         # exceptional exits -------------------------------------------------
         for rs in c.raises:
@@ -601,6 +615,7 @@ def apply_contract(eng, fi, c, self_val, args, kw, st, e):
                 xs.pc = z3.And(xs.pc, g)
             ex = Exit("raise", xs, exc=rs.exc, where=eng.where(e))
             ex.from_call = fi.name
+            ex.tag = "%s" % tag
             eng.push_exit(ex)
             st.pc = z3.And(st.pc, z3.Not(cond))
         # normal exit ---------------------------------------------------------
@@ -647,6 +662,8 @@ def make_result(eng, c, fi, st, b):
     nm = ctx().fresh("res_" + fi.name)
     if spec is None:
         return Val(poly=nm, ref="$" + nm)
+    if spec.get("builder"):
+        return spec["builder"](eng, c, b, st, None)
     return eng.build_from_spec(spec, nm, spec_state(eng, st, b))
 
 
@@ -835,7 +852,56 @@ def sf_count_true(eng, e, st):
     return Val.of_num(N(npmodel.count_true(a)))
 
 
+def _as_pt(eng, v):
+    if v.py is not None and v.py[0] == "pt":
+        return v.py[1]
+    a = v.get_arr()
+    if a is not None and a.ndim == 1:
+        return a.row(None)
+    raise Undecided("expected a point (1-D array or row) in contract expression, got %r" % (v,))
+
+
+def sf_row(eng, e, st):
+    a = eng.ev(e.args[0], st).get_arr()
+    if a is None or a.ndim != 2:
+        raise Undecided("row() needs a 2-D array")
+    k = eng.as_int(eng.ev(e.args[1], st))
+    return Val(py=("pt", a.row(k)))
+
+
+def sf_pt(eng, e, st):
+    return Val(py=("pt", _as_pt(eng, eng.ev(e.args[0], st))))
+
+
+def _ptfun(name, res_pt=True):
+    def f(eng, e, st):
+        PT = z3.ArraySort(z3.IntSort(), z3.RealSort())
+        p = _as_pt(eng, eng.ev(e.args[0], st))
+        if res_pt:
+            return Val(py=("pt", ctx().uf(name, PT, PT)(p)))
+        return Val.of_num(N(ctx().uf(name, PT, z3.RealSort())(p)))
+
+    return f
+
+
+def sf_feasx(eng, e, st):
+    from contracts import models
+
+    return Val.of_bool(models.feasx(_as_pt(eng, eng.ev(e.args[0], st))))
+
+
+def sf_pteq(eng, e, st):
+    return Val.of_bool(_as_pt(eng, eng.ev(e.args[0], st)) == _as_pt(eng, eng.ev(e.args[1], st)))
+
+
+def sf_ptat(eng, e, st):
+    p = _as_pt(eng, eng.ev(e.args[0], st))
+    return Val.of_num(N(z3.Select(p, eng.as_int(eng.ev(e.args[1], st)))))
+
+
 SPECFUNCS = {
+    "row": sf_row, "pt": sf_pt, "invt": _ptfun("InvT"), "fwdt": _ptfun("FwdT"), "cval": _ptfun("Cval", False), "feasx": sf_feasx,
+    "pteq": sf_pteq, "ptat": sf_ptat,
     "count_true": sf_count_true,
     "old": sf_old, "implies": sf_implies, "iff": sf_iff, "forall": sf_forall, "exists": sf_exists, "rows": sf_rows,
     "cols": sf_cols, "ite": sf_ite, "isint": sf_isint, "isnone": sf_isnone, "pw": sf_pw, "ghost": sf_ghost,
